@@ -324,6 +324,21 @@ Example ex_parse : hex_body (list_ascii_of_string "fX09") = true
                    /\ digits_spec 4 (list_ascii_of_string "A5") = [[true;false;true;false; false;true;false;true]; repeat true 8].
 Proof. split; vm_compute; reflexivity. Qed.
 
+(* formatState(base 16, dropLeadingZeros = false) on a state whose size is a multiple of 4: the hex
+   digit string of the bit array, most significant nibble first, 'X' for a nibble with an undefined bit *)
+Theorem C18_formatState_hex : forall s,
+  wf s -> (DEFINED < length (planes s))%nat -> bsize s mod 4 = 0 ->
+  formatState s 16 false = formatHex_spec (abs s).
+Proof. exact formatState_hex_abs. Qed.
+Print Assumptions C18_formatState_hex.
+Example ex_formatState_hex :
+  formatState (st_defined 16 171) 16 true = list_ascii_of_string "AB"
+  /\ formatState (st_defined 16 4113) 16 true = list_ascii_of_string "1011"
+  /\ formatState (st_defined 12 416) 16 false = list_ascii_of_string "1A0"
+  /\ formatState (st_defined 12 2816) 16 false = list_ascii_of_string "B00"
+  /\ formatState (st_defined 16 171) 16 false = list_ascii_of_string "00AB".
+Proof. exact formatState_hex_regression. Qed.
+
 (* parse (print s) = the same 0/1/X array (the VALUE bit under an undefined position is not
    preserved by the text form, hence the comparison of the four-state views) *)
 Theorem C18_parse_print_roundtrip : forall s,
@@ -336,24 +351,16 @@ Example ex_roundtrip : wf ex_s /\ length (planes ex_s) = 2%nat.
 Proof. split; apply ex_s_wf. Qed.
 
 (* ---------------- refuted: where the real container (and hence the faithful model) does NOT
-   behave like the operation on an array of bits; both are confirmed on the real library by
-   harness/C18_bvs.cpp on every run ---------------- *)
-Theorem C18_formatState_hex_ambiguous_refuted :
-  (wf (st_defined 12 416) /\ wf (st_defined 12 2816)
-   /\ abs (st_defined 12 416) <> abs (st_defined 12 2816)
-   /\ formatState (st_defined 12 416) 16 false = formatState (st_defined 12 2816) 16 false)
-  /\ (abs (st_defined 16 171) <> abs (st_defined 16 4113)
-      /\ formatState (st_defined 16 171) 16 true = formatState (st_defined 16 4113) 16 true
-      /\ formatState (st_defined 16 171) 16 true = list_ascii_of_string "1011").
-Proof. exact formatState_hex_ambiguous_refuted. Qed.
-Print Assumptions C18_formatState_hex_ambiguous_refuted.
-
-Theorem C18_resize_exposes_stale_tail_refuted :
+   behave like the operation on an array of bits; confirmed on the real library by
+   harness/C18_bvs.cpp on every run (KNOWN_FINDINGS.txt: octal literal) ---------------- *)
+(* the `clean` hypothesis of C18_resize cannot be dropped (no modelled operation produces an unclean
+   state; createRandom*DefaultBitVectorState used to, repaired in /repo 25f5b7d and regression-probed) *)
+Theorem C18_resize_clean_hypothesis_necessary :
   wf st_dirty /\ wf st_cleaned /\ abs st_dirty = abs st_cleaned /\ eqS st_dirty st_cleaned = true
   /\ abs (resize st_dirty 20) <> resize_spec (abs st_dirty) 20
   /\ eqS (resize st_dirty 20) (resize st_cleaned 20) = false.
-Proof. exact resize_exposes_stale_tail_refuted. Qed.
-Print Assumptions C18_resize_exposes_stale_tail_refuted.
+Proof. exact resize_clean_hypothesis_necessary. Qed.
+Print Assumptions C18_resize_clean_hypothesis_necessary.
 
 Theorem C18_parse_octal_22_digits_refuted :
   parseBitVector (list_ascii_of_string "o0000000000000000000000") = None
